@@ -67,7 +67,9 @@ def parse_file(path: Path | str) -> NixSourceCode:
     # Anchor relative spellings now: import hops are resolved later, possibly
     # after the working directory has changed.
     path = Path(path).absolute()
-    source_code = path.read_text(encoding="utf-8")
+    # Bytes, not text mode: universal newlines would turn `\r\n` into `\n`, and a
+    # file with a syntax error has to come back exactly as it was read.
+    source_code = path.read_bytes().decode("utf-8")
     with source_path_context(path):
         source = parse(source_code, source_path=path)
     return source
